@@ -147,6 +147,10 @@ var fstypes = []string{"ext4", "tmpfs", "proc", "overlay", "overlay", "devtmpfs"
 
 func genTable(r *rng.R) []KLine {
 	n := 1 + r.Heavy(14)
+	big := r.Chance(1, 8) // a busy host: more file systems than any initial capacity in the parser, old devices mounted again late
+	if big {
+		n = 22 + r.Intn(45)
+	}
 	tbl := make([]KLine, 0, n)
 	devPool := []string{"8:1", "0:22", "0:5", "0:43", "254:0", "0:100"}
 	for i := 0; i < n; i++ {
@@ -158,8 +162,11 @@ func genTable(r *rng.R) []KLine {
 			k.Parent = tbl[r.Intn(len(tbl))].ID
 		}
 		k.Dev = r.Pick(devPool)
-		if r.Chance(1, 6) {
+		if r.Chance(1, 6) || (big && r.Chance(2, 3)) {
 			k.Dev = fmt.Sprintf("0:%d", 50+i)
+		}
+		if big && i > 20 && r.Chance(1, 3) { // a device of the first lines, mounted once more
+			k.Dev = tbl[r.Intn(10)].Dev
 		}
 		if r.Chance(2, 3) {
 			k.Root = "/"
